@@ -45,7 +45,7 @@ def gen_sibling(rng):
     if r < 0.7:
         return ("lb", rng.choice((0, 1)), rng.choice((0, 1)))
     if r < 0.9:
-        items = tuple(rng.choice((("a", None), ("a", ""), ("a", "1"), ("b", "1"), ("a", "=1"), ("ab", None)))
+        items = tuple(rng.choice((("a", None), ("a", ""), ("a", "1"), ("b", "1"), ("a", "=1"), ("ab", None), ("A", "1"), ("a", "I"), ("a", "i")))
                       for _ in range(rng.choice((1, 1, 2))))
         return ("cfg", items)
     # an unknown type carrying exactly the body of an endpoint option
